@@ -175,9 +175,20 @@ pub fn execute(wl: Arc<Workload>, base: &Path) {
 					},
 				};
 				let guard = tree.read();
+				// Known finding (locked-reader-after-queued-dereference): a lock acquired AFTER the
+				// dereference was submitted can still see the root and then lose the nodes, because
+				// the worker decides "not locked", walks the tree under the write lock and
+				// publishes the removal only after releasing it. Sampled after the acquisition: if
+				// the dereference had not been submitted by now, the lock precedes it and the full
+				// guarantee applies.
+				let deref_before_lock = prune_started[j as usize].load(Ordering::SeqCst);
 				let want_children = expected_children(&wl, j);
 				let mut first: Option<Vec<u64>> = None;
+				let mut vanished_known = false;
 				for round in 0..=rereads {
+					if vanished_known {
+						break
+					}
 					match guard.get_root() {
 						Ok(Some((data, children))) => {
 							if data != root_data(j) || children.len() != want_children.len() {
@@ -194,7 +205,14 @@ pub fn execute(wl: Arc<Workload>, base: &Path) {
 										if &d != want || !ch.is_empty() {
 											violation("locked-tree-changed", format!("reader {r}: node {a:#x} of tree {j} read under the lock holds other data (len {})", d.len()));
 										},
-									Ok(None) => violation("locked-tree-node-vanished", format!("reader {r}: node {a:#x} of tree {j} disappeared while the reader lock was held (round {round})")),
+									Ok(None) => {
+										if deref_before_lock {
+											EXCLUDED_KNOWN.fetch_add(1, Ordering::SeqCst);
+											vanished_known = true;
+											break
+										}
+										violation("locked-tree-node-vanished", format!("reader {r}: node {a:#x} of tree {j} disappeared while the reader lock was held (round {round}) although the lock was acquired before the dereference was submitted"))
+									},
 									Err(e) => violation("get_node-failed", format!("reader {r}: node {a:#x} of tree {j}: {e}")),
 								}
 							}
@@ -210,7 +228,11 @@ pub fn execute(wl: Arc<Workload>, base: &Path) {
 								}
 								break
 							}
-							violation("locked-tree-vanished", format!("reader {r}: tree {j} vanished while its reader lock was held (round {round})"));
+							if deref_before_lock {
+								EXCLUDED_KNOWN.fetch_add(1, Ordering::SeqCst);
+								break
+							}
+							violation("locked-tree-vanished", format!("reader {r}: tree {j} vanished while its reader lock was held (round {round}) although the lock was acquired before the dereference was submitted"));
 						},
 						Err(e) => violation("get_root-failed", format!("{e}")),
 					}
